@@ -116,7 +116,8 @@ def histgen(rng, oids):
     hg = Gen06(rng, oids, weights=dict(
         insert_one=22, insert_many=8, update_one=14, update_many=6, replace_one=8,
         delete_one=4, delete_many=1, find=0, count=0, distinct=0, create_index=12,
-        drop_index=2, drop_indexes=1, drop=1, clock=5 if combined else 0), ttl=False)
+        drop_index=2, drop_indexes=1, drop=1, clock=5 if combined else 0,
+        find_one_and_update=3, find_one_and_replace=2, bulk_write=3), ttl=False)
     hg.combined = combined
     hg.ug.malformed = 0.02
     hg.dollar_values = 0.03
@@ -345,7 +346,8 @@ def nontrivial(history, steps):
                 st.op[0] != 'create_index' and (st.extra or {}).get('probe'):
             rejected = True
         elif rejected and st.out[0] != 'err' and st.op[0] in (
-                'insert_one', 'update_one', 'replace_one', 'update_many', 'insert_many'):
+                'insert_one', 'update_one', 'replace_one', 'update_many', 'insert_many',
+                'find_one_and_update', 'find_one_and_replace', 'bulk_write'):
             return True
     return False
 
